@@ -1,4 +1,5 @@
 import Girc.Drv.Proto
+import Girc.Drv.EventOps
 import Girc.Model.Names
 import Girc.Model.Glob
 import Girc.Spec.NameSpec
@@ -7,7 +8,7 @@ namespace Girc.Drv
 open Girc Girc.Model
 
 /-- One request → one response line. `none` = malformed request (never defaulted). -/
-def handle (op : String) (args : List String) : Option String :=
+def handleBasic (op : String) (args : List String) : Option String :=
   match op, args with
   | "ping", [] => some "pong"
   | "validnick", [a] => do let s ← arg a; pure (bl (isValidNick s))
@@ -21,5 +22,8 @@ def handle (op : String) (args : List String) : Option String :=
   | "spec.fold", [a] => do let s ← arg a; pure (hx (s.map Spec.fold1))
   | "spec.glob", [a, b] => do let s ← arg a; let p ← arg b; pure (bl (Spec.wmatch p s))
   | _, _ => none
+
+def handle (op : String) (args : List String) : Option String :=
+  (handleBasic op args) <|> (handleEvent op args)
 
 end Girc.Drv
